@@ -159,13 +159,20 @@ fn exchange_inner(s: &Session, ch: &mut Chooser) -> Result<String, String> {
         }
     }
     // choice 3: client -> server (A, M1)
-    let c3 = ch.pick(1 + 256 + 160, "wire-A-M1");
+    // A + N is a different, valid key congruent to A (when it still fits in 32 bytes)
+    let a_plus_n = {
+        let s = U::from_le_bytes(&a_sent).add(&srp::n_builtin());
+        if s.bits() <= 256 { Some(s.to_le_padded::<32>()) } else { None }
+    };
+    let c3 = ch.pick(1 + 256 + 160 + usize::from(a_plus_n.is_some()), "wire-A-M1");
     let (a_recv, m1_recv) = if c3 == 0 {
         (a_sent, m1_sent)
     } else if c3 <= 256 {
         (flip(&a_sent, c3 - 1), m1_sent)
-    } else {
+    } else if c3 <= 416 {
         (a_sent, flip(&m1_sent, c3 - 257))
+    } else {
+        (a_plus_n.unwrap(), m1_sent)
     };
     let ak = match PublicKey::from_le_bytes(a_recv) {
         Ok(k) => k,
@@ -346,7 +353,7 @@ pub fn run(tier: Tier, seed: u64) -> i32 {
                 signature: format!("C02|{class}"),
                 scenario: "login-with-adversary".into(),
                 replay: json!({"session": s.name, "registered": [s.user, s.pass], "salt": hex(&s.salt), "b": hex(&s.b), "a": hex(&s.a), "choices": choices,
-                    "choice_points": ["typed-credentials (0 same,1 case variant,2 one char,3 length,4 username)", "B bit 1..256 / salt bit 257..512", "A bit 1..256 / M1 bit 257..416", "M2 bit 1..160"]}),
+                    "choice_points": ["typed-credentials (0 same,1 case variant,2 one char,3 length,4 username)", "B bit 1..256 / salt bit 257..512", "A bit 1..256 / M1 bit 257..416 / 417 = A replaced by A+N", "M2 bit 1..160"]}),
                 detail: json!({ "message": msg }),
             });
         }
